@@ -44,6 +44,32 @@ CHECKS["C05"] = dict(
          "the result must be identical, and every proper prefix must give RC_WMORE with consumed <= prefix.",
     note="PER excluded (documented as not restartable); split enumeration is exhaustive per encoding, encodings are a sample")
 
+CHECKS["C06"] = dict(
+    level="exploration", design="DESIGN.md §4 C06",
+    technique="metamorphic property-based testing: value-preserving representation mutations (walker over the type descriptors) and decode-from-BER-variant, canonical encoders must give byte-identical output",
+    text="S is decoded from the reference DER, S' from a drawn alternative BER encoding of the same value and then mutated in "
+         "memory (SET OF order, redundant INTEGER octets under -fwide-types, DEFAULT members materialised/removed, noise in "
+         "unused BIT STRING bits); DER, CANONICAL-XER, canonical UPER and OER of S and S' must be identical.",
+    note="mutations are limited to those that provably keep the abstract value; half the modules are built with -fwide-types")
+CHECKS["C07"] = dict(
+    level="fault_enumeration", design="DESIGN.md §4 C07",
+    technique="fault enumeration over generated structures: every output buffer size, every callback-failure index, structure-breaking walker, constraint-violating values; invariants on sizes, bytes, errno and the allocation ledger under ASan/UBSan",
+    text="For generated valid, constraint-violating and deliberately broken structures each of the five encoders is run with "
+         "every buffer size 0..n+1 (exact-size heap buffers), through asn_encode_to_new_buffer, and with the output callback "
+         "failing at every call index; the reported size must equal the bytes delivered, be the same for every buffer size, "
+         "failures must be -1 with errno (EIO for callback failure), nothing may leak, abort or hang.",
+    note="buffer sizes exhaustive to 600 octets then every 97th; callback indices exhaustive to 400 calls then every 53rd; "
+         "structures are a sample")
+CHECKS["C14"] = dict(
+    level="fault_enumeration", design="DESIGN.md §4 C14",
+    technique="stateful property-based testing (Hypothesis-drawn API histories on one structure pointer) plus exhaustive k-th-allocation-failure injection through a wrapped allocator with a live-block ledger; ASan for double/invalid free, LSan at exit",
+    text="Histories of decode-prefix/rest/garbage/valid, encode, check, print, RESET, FREE_CONTENTS_ONLY, re-decode-after-reset "
+         "(compared with a fresh decode) and FREE are executed legally (the driver frees before an illegal continuation) and "
+         "the allocation ledger must return to its start; every decoder and encoder is re-run with the k-th allocation failing "
+         "for every k, releasing whatever was built.",
+    note="allocation faults are injected via -Wl,--wrap on everything linked into the driver; PER is treated as not "
+         "restartable (structure released after RC_WMORE)")
+
 NOT_YET = {
 }
 
